@@ -52,6 +52,9 @@ pub enum Tamper {
     /// C1 whose coordinates are special values #i, #j of {0, 1, p-1, p, n, 2^256-1} (uncompressed) or x = #i (compressed); C2/C3 left alone.
     /// (0,0) is how some encoders write the point at infinity.
     C1Special(u8, u8),
+    /// C1 = (x, 0): on no curve with these formulas other than as a point of order two. C2/C3 are forged for the shared point an unchecked
+    /// decryptor would compute: (x, 0) itself for odd d, and the all-zero coordinates of a normalised point at infinity for even d
+    C1OrderTwoForged(u64),
 }
 
 #[derive(Serialize, Deserialize, Hash, Debug, Clone)]
@@ -222,6 +225,22 @@ pub fn check(c: &Case) -> CaseResult {
             ct = assemble(&other, &parsed.c2, &parsed.c3, b.c1c3c2);
             class = "wrong-kind";
         }
+        Tamper::C1OrderTwoForged(seed) => {
+            if b.compressed {
+                return pass(false, "order-two-needs-uncompressed");
+            }
+            let x = from_be(&expand_bytes(*seed ^ 0x02de, 32)) % pr.p;
+            let zero = BigUint::zero();
+            let (x2, y2): ([u8; 32], [u8; 32]) = if d.bit(0) { (to32(&x), [0u8; 32]) } else { ([0u8; 32], [0u8; 32]) };
+            let t = rsm3::kdf(&[&x2[..], &y2[..]].concat(), bd.msg.len());
+            let c2: Vec<u8> = bd.msg.iter().zip(t.iter()).map(|(a, b)| a ^ b).collect();
+            let c3 = rsm3::sm3_parts(&[&x2, &bd.msg, &y2]);
+            let mut c1 = vec![4u8];
+            c1.extend_from_slice(&to32(&x));
+            c1.extend_from_slice(&to32(&zero));
+            ct = assemble(&c1, &c2, &c3, b.c1c3c2);
+            class = "order-two-forged";
+        }
         Tamper::C1Special(i, j) => {
             let vals: Vec<BigUint> = vec![BigUint::zero(), BigUint::from(1u32), pr.p - 1u32, pr.p.clone(), pr.n.clone(), (BigUint::from(1u32) << 256) - 1u32];
             ct[1..33].copy_from_slice(&to32(&vals[*i as usize % vals.len()]));
@@ -315,6 +334,7 @@ pub fn tamper_strategy() -> impl Strategy<Value = Tamper> {
         6 => (prop_oneof![3 => Just(0u8), 1 => Just(1u8), 1 => Just(2u8), 1 => Just(3u8)], multi::strategy()).prop_map(|(r, m)| Tamper::Multi(r, m)),
         2 => (0..4u8).prop_map(Tamper::AltEncoding),
         2 => (0..6u8, 0..6u8).prop_map(|(i, j)| Tamper::C1Special(i, j)),
+        2 => any::<u64>().prop_map(Tamper::C1OrderTwoForged),
     ]
 }
 
@@ -322,7 +342,7 @@ pub fn run(ctx: &Ctx) {
     ctx.set_rule(
         "a case is (base, tampering): the base is a ciphertext made by the *reference* encryptor (|M| 1..64, four configurations); tamperings: every single-bit flip incl. the prefix byte (exhaustive per base), \
          every truncation length, small extensions, C1 replaced by a random off-curve (x,y) with C2/C3 forged consistently through the group law of the curve y^2=x^3+ax+b' it lies on (invalid-curve attack: \
-         without an on-curve check the library returns the plaintext), C1 nudged off the curve, compressed x with non-residue right-hand side, an on-curve C1 with small x encoded as x+p with consistent C2/C3, \
+         without an on-curve check the library returns the plaintext), C1 = (x, 0) (a point of order two under the curve's formulas) with C2/C3 forged for the shared point an unchecked decryptor would compute (odd and even private keys), C1 nudged off the curve, compressed x with non-residue right-hand side, an on-curve C1 with small x encoded as x+p with consistent C2/C3, \
          every other prefix byte, C1 re-encoded in the other form, the whole ciphertext re-encoded (SM2Cipher DER, hex text, the other component order), multi-byte alterations of C3 / C2 / C1.x that preserve the xor, the sum or the multiset of the bytes or words (a folded or partial comparison of C3 accepts them), wholesale replacements of C3. Oracle: the reference decryptor (strict SEC1 decoding, on-curve check, C3 check) decides; tampered => Err, never a plaintext, never a panic. Non-trivial: a case the reference rejects.",
     );
     ctx.assume("reference decryptor (harness/src/refimpl/sm2.rs): strict SEC1 decoding (prefix 02/03/04 matching the caller's flag, coordinates < p), on-curve check, C3 = SM3(x2||M'||y2)");
@@ -408,6 +428,18 @@ pub fn run(ctx: &Ctx) {
             }
             for s in 0..16u8 {
                 v.push(Case { base: b.clone(), tamper: Tamper::C1XPlusP(s) });
+            }
+            for s in 0..4u64 {
+                v.push(Case { base: b.clone(), tamper: Tamper::C1OrderTwoForged(bi as u64 * 10 + s) });
+                // the same against an even and an odd private key, uncompressed framing
+                for parity in 0..2u8 {
+                    let mut e = b.clone();
+                    let mut dv = e.d.0.clone();
+                    dv[31] = (dv[31] & 0xFE) | parity;
+                    e.d = Hex(dv);
+                    e.compressed = false;
+                    v.push(Case { base: e, tamper: Tamper::C1OrderTwoForged(bi as u64 * 10 + s) });
+                }
             }
         }
         v
